@@ -418,7 +418,7 @@ _definitions = {
     "AdditionalLine": {
         "type": "object",
         "properties": {
-            "line": {"type": "integer"},
+            "line": {"anyOf": [{"type": "integer"}, {"type": "null"}]},
             "additional_offsets": {
                 "type": "array",
                 "items": {"type": "integer"},
